@@ -681,22 +681,36 @@ func ruleOnce(c *Ctx, a *tcpAnchors, rule string) {
 	}
 	ok3, bad3 := oreg.BeforeDeep(isHandle, isClosed)
 	c.Check(rule, short(oh)+":closed-after-handling", p.Pos(oh.Pos()), ok3, fmt.Sprintf("AddClosed can run (%s) before the connection was handled", p.IPos(bad3)))
-	// open: the service entry reports AddOpenTCPConnection at most once, exactly once on the metrics != nil edge, and passes the result on
+	// open: the service entry (the function that hands a connection to the stream handler) reports AddOpenTCPConnection at most
+	// once, exactly once on the metrics != nil edge, for this connection, and passes the result on
+	isOpen := methodQ("AddOpenTCPConnection")
+	nEntry := 0
 	for _, f := range p.FnsIn("service") {
-		if !bodyHas(f, methodQ("AddOpenTCPConnection")) || f.Signature.Recv() == nil || f.Name() == "AddOpenTCPConnection" {
+		if f.Signature.Recv() == nil || f.Parent() != nil || p.IsTestSupport(f) {
 			continue
 		}
-		mn, mx, _ := eng.CountOnPaths(eng.Point{B: f.Blocks[0]}, methodQ("AddOpenTCPConnection"), nil)
-		c.Check(rule, short(f)+":open-reported-at-most-once", p.Pos(f.Pos()), mx == 1, fmt.Sprintf("AddOpenTCPConnection runs up to %d times per connection", mx))
-		_ = mn
+		var handles []*ssa.Call
 		for _, cl := range eng.Calls(f) {
-			call, ok := cl.(*ssa.Call)
-			if !ok || eng.MethodName(&call.Call) != "AddOpenTCPConnection" {
-				continue
+			if hc, ok := cl.(*ssa.Call); ok && hc.Call.IsInvoke() && hc.Call.Method.Name() == "Handle" {
+				handles = append(handles, hc)
 			}
+		}
+		if len(handles) == 0 {
+			continue
+		}
+		reg := c.NewRegion(f, 2, func(h *ssa.Function) bool { return eng.PkgPathOf(h) != eng.Mod+"/service" })
+		opens := reg.FindCalls(func(_ string, call *ssa.Call) bool { return isOpen(call) })
+		if len(opens) == 0 {
+			continue
+		}
+		nEntry++
+		_, mx, _ := eng.CountOnPaths(eng.Point{B: f.Blocks[0]}, reg.May(isOpen), nil)
+		c.Check(rule, short(f)+":open-reported-at-most-once", p.Pos(f.Pos()), mx == 1, fmt.Sprintf("AddOpenTCPConnection runs up to %d times per connection", mx))
+		for _, call := range opens {
+			g := call.Parent()
 			// guarded only by metrics != nil
 			recv := eng.Receiver(&call.Call)
-			_, nn := p.NilEdges(f, func(v ssa.Value) bool { return sameOrigin(c, v, recv) || sameFieldLoad(p.Resolve(v), p.Resolve(recv)) })
+			_, nn := p.NilEdges(g, func(v ssa.Value) bool { return sameOrigin(c, v, recv) || sameFieldLoad(p.Resolve(v), p.Resolve(recv)) })
 			okG := len(nn) > 0
 			for _, e := range sortedEdges(nn) {
 				if ok, _ := eng.MustPass(edgePoint(e), func(ins ssa.Instruction) bool { return ins == ssa.Instruction(call) }); !ok {
@@ -705,21 +719,20 @@ func ruleOnce(c *Ctx, a *tcpAnchors, rule string) {
 			}
 			c.CheckAt(rule, short(f)+":open-reported-whenever-metrics-exist", call, okG, "with metrics configured a connection can be handled without being reported open")
 			// the connection reported is the parameter connection and the metrics object flows to the handler
-			g, _ := p.AllFrom(eng.Arg(&call.Call, 0), eng.Plain, func(v ssa.Value) bool { _, isP := v.(*ssa.Parameter); return isP })
-			c.CheckAt(rule, short(f)+":open-reported-for-this-connection", call, g, "the connection reported open is not the connection being handled")
+			okC, _ := p.AllFrom(eng.Arg(&call.Call, 0), deepF, func(v ssa.Value) bool { pa, isP := v.(*ssa.Parameter); return isP && pa.Parent() == f })
+			c.CheckAt(rule, short(f)+":open-reported-for-this-connection", call, okC, "the connection reported open is not the connection being handled")
 			flows := false
-			for _, c2 := range eng.Calls(f) {
-				if hc, ok := c2.(*ssa.Call); ok && eng.MethodName(&hc.Call) == "Handle" {
-					for _, ar := range hc.Call.Args {
-						if p.AnyFrom(ar, eng.Plain, func(v ssa.Value) bool { return v == ssa.Value(call) }) {
-							flows = true
-						}
+			for _, hc := range handles {
+				for _, ar := range hc.Call.Args {
+					if p.AnyFrom(ar, deepF, func(v ssa.Value) bool { return v == ssa.Value(call) }) {
+						flows = true
 					}
 				}
 			}
 			c.CheckAt(rule, short(f)+":connection-metrics-handed-to-the-handler", call, flows, "the per-connection metrics object is not passed to the stream handler")
 		}
 	}
+	c.Floor(rule, "service entry points that report a connection open and hand it to the stream handler", nEntry, 1)
 }
 
 // C15.STATUS
